@@ -125,15 +125,20 @@ claim('C07', 'proof',
       'Object/Ref/DNA/hyper clones and copy.copy/deepcopy are covered by the bounded tier.',
       'Trusted: engine; `base.clone` on children is the induction hypothesis; constructors establish a well-formed tree (C01).',
       'contract-based deductive verification (pyvc loop contracts) + bounded stand-in', 'DESIGN.md 5/C07')
-claim('C09', 'other',
-      '`Symbolic._notify_field_updates` is executed symbolically on an ancestor chain of three nodes with one or two updates (paths, keys and subscribe flags '
-      'symbolic): each ancestor-or-self of an update target receives exactly one `_on_change`, deepest first; a subscribing receiver gets exactly '
-      '{update.path - receiver.path: update} for the updates below it, a non-subscribing one {}; the three content caches are reset before the handler; '
-      'nothing else is touched; notify_parents=False stops at self. The tree shape is fixed per variant, so these 16 obligations are a BOUNDED stand-in and are '
-      'not counted as proved. Exactly-once delivery per mutating call, true old/new values and freshness of derived facts after histories are checked by the '
-      'bounded driver (instrumented trees, comparison with a deserialized copy after every step).',
-      'Trusted: engine; A-PATHORDER (KeyPath order on prefix-related paths is by depth). No unbounded obligation is discharged for C09 in this revision.',
-      'contract-based symbolic execution with a stated shape bound + bounded run-time oracle (labelled bounded, not proof)', 'DESIGN.md 5/C09')
+claim('C09', 'proof',
+      'Dispatch discipline of the mutators, on the real bodies for containers of any size (14 unbounded obligations): on every returning path of '
+      '`List.append/extend/insert/__setitem__/__delitem__/pop/__iadd__`, `Dict.__setitem__/__delitem__/pop/popitem/setdefault/update` and `Object.__setattr__` '
+      'on which the tree is written, `_notify_field_updates` is called exactly once, after the last write, when change notification is enabled (one batch per call: '
+      'no per-element dispatch, no shortcut that skips it -- it is also what resets the cached derived facts) and not at all when it is disabled; a mutator that '
+      'writes without consulting the notification flag fails. The dispatcher itself, `Symbolic._notify_field_updates`, is executed symbolically on an ancestor chain '
+      'of three nodes with one or two updates (paths, keys and subscribe flags symbolic): each ancestor-or-self of an update target receives exactly one `_on_change`, '
+      'deepest first; a subscribing receiver gets exactly {update.path - receiver.path: update}, a non-subscribing one {}; the three content caches are reset before '
+      'the handler; nothing else is touched; notify_parents=False stops at self -- these 16 obligations have a fixed tree shape and are a BOUNDED stand-in, not counted '
+      'as proved. True old/new values, exactly-once delivery through whole trees and freshness of derived facts after histories are checked by the bounded driver.',
+      'Trusted: engine; A-PATHORDER (KeyPath order on prefix-related paths is by depth); the write primitives either change nothing and return None or write and return '
+      'the FieldUpdate (their own contracts are C01/C03). `List.clear/sort/reverse`, `Dict.clear` and rebind batches go through helpers that are not under this '
+      'contract: bounded tier only.',
+      'contract-based deductive verification (pyvc trace obligations on the mutators) + shape-bounded symbolic execution of the dispatcher + bounded run-time oracle', 'DESIGN.md 5/C09')
 claim('C03', 'proof',
       'Formalize-then-store kernel on the real code: `List._formalized_value` returns relocate(apply(from_json(v))) exactly when a value spec is bound and type '
       'checking is on (with the effective allow_partial), and relocate(from_json(v)) otherwise; the list and dict write primitives hand exactly the formalized '
